@@ -45,9 +45,24 @@ fn render(o: &Options) -> String {
     parts.join(";")
 }
 
+fn cmdline(cmd: &std::process::Command, skip_marks: bool) -> String {
+    let mut v: Vec<Vec<u8>> = vec![cmd.get_program().as_bytes().to_vec()];
+    for a in cmd.get_args() {
+        let b = a.as_bytes().to_vec();
+        if skip_marks && b.starts_with(b"--export-marks=") { continue; }      // a path inside the target's git directory: not modelled
+        v.push(b);
+    }
+    enc_list(&v)
+}
+
 fn main() {
     match parse_args() {
-        Ok(o) => println!("FRRS-OPTS ok {}", render(&o)),
+        Ok(o) => {
+            // the command lines the run would start (pipes.rs), for the same options
+            let exp = match filter_repo_rs::verif_hooks::build_fast_export_cmd(&o) { Ok(c) => cmdline(&c, false), Err(_) => "err".to_string() };
+            let imp = cmdline(&filter_repo_rs::verif_hooks::build_fast_import_cmd(&o), true);
+            println!("FRRS-OPTS ok {}|export={}|import={}", render(&o), exp, imp)
+        }
         Err(_) => println!("FRRS-OPTS err"),
     }
 }
